@@ -70,6 +70,17 @@ func (v *Verdict) absorb(r *RunResult) {
 			// not a verdict about the code: the simulator cannot decide who runs next when a task waits on a lock it does not own
 			v.Infra = append(v.Infra, "a task is parked on a lock the simulator does not model: "+r.World.LockStall)
 		}
+		if r.World.Spin != "" {
+			// every property that speaks about an RPC's result presupposes that ServeHTTP comes back; a loop without I/O never does
+			v.violate("spin", map[string]string{"site": r.World.SpinSite}, "the transcoder loops without performing any I/O (20 s of wall clock without a read, write, flush, lock, pool or clock call): %s", r.World.Spin)
+		}
+		if r.World.Runaway != "" {
+			site := r.World.Runaway
+			if i := strings.Index(site, "@"); i >= 0 {
+				site = site[i+1:]
+			}
+			v.violate("runaway-loop", map[string]string{"site": site}, "after the step cap ended the run every read, write, flush and pool call fails, yet a task was still looping %d steps later: %s", runawayAfterAbort, r.World.Runaway)
+		}
 		if r.World.LockWaits > 0 {
 			v.probe("lock-wait")
 		}
@@ -324,6 +335,9 @@ func RunWorker(o WorkerOpts) *WorkerResult {
 		return ck.Oracle(p)
 	}
 	handle := func(p *Plan, rs uint64) {
+		if SpinLeaked {
+			return // see SpinLeaked: nothing further is started in this process
+		}
 		p.normalize()
 		v := safeOracle(p)
 		res.Evaluations++
@@ -368,13 +382,16 @@ func RunWorker(o WorkerOpts) *WorkerResult {
 			perRule[viol.Rule]++
 			sp, sv, n := p, viol, 0
 			// enough minimised examples of this kind already: record this one as found, unshrunk
-			if !ck.NoShrink && len(seen) <= 40 && perRule[viol.Rule] <= 4 {
+			if !ck.NoShrink && len(seen) <= 40 && perRule[viol.Rule] <= 4 && !SpinLeaked {
 				sp, sv, n = shrinkPlan(ck, p, o.Prop, viol)
 			}
 			rf := &ReplayFile{Property: o.Prop, Fingerprint: fp, VerifSeed: o.Seed, RunSeed: fmt.Sprintf("%016x", rs), Tier: o.Tier,
 				Plan: sp, Violation: *sv, ShrinkRuns: n}
 			// record the trace and hash of the minimised run
-			fin := ck.Oracle(sp)
+			fin := v
+			if !SpinLeaked {
+				fin = ck.Oracle(sp)
+			}
 			rf.EventHash = fin.SchedHash
 			rf.Trace = tail(fin.Trace, 60)
 			path, err := writeReplay(o.ReplayDir, rf)
@@ -403,7 +420,7 @@ func RunWorker(o WorkerOpts) *WorkerResult {
 		if o.MaxRuns > 0 && idx >= o.From+o.MaxRuns {
 			break
 		}
-		if time.Since(start) > o.Budget {
+		if time.Since(start) > o.Budget || SpinLeaked {
 			break
 		}
 		rs := runSeed(o.Seed, o.Prop, o.Worker, idx)
